@@ -299,21 +299,25 @@ NearEst == {e + d : e \in Epochs, d \in {3, 4, 5}}
 
 KeySeqs == {<<k>> : k \in Keys} \cup {<<k1, k2>> : k1 \in Keys, k2 \in Keys}
 
-NextOf(P(_), PS(_)) ==
-  \/ "rep" \in Acts /\ \E S \in PS(SignerSets), e \in P(Epochs), p \in P(Peers), v \in P(Vals) : RepPut(S, e, p, v)
-  \/ "aud" \in Acts /\ \E S \in PS(SignerSets), e \in P(Epochs), c \in P(Cids), n \in P(Nodes), v \in P(Vals) : AudPut(S, e, c, n, v)
-  \/ "ir" \in Acts /\ \E S \in PS(SignerSets), ks \in P({SetToSeq(I) : I \in IRSets} \cup {<<>>}) : IrSet(S, ks)
-  \/ "est" \in Acts /\ \E S \in PS(SignerSets), e \in P(Epochs \cup NearEst), c \in P(Cids), n \in P(Nodes), z \in P(Sizes) : EstPut(S, e, c, n, z)
-  \/ "est" \in Acts /\ \E S \in PS(SignerSets), e \in P(Epochs \cup NearEst) : EstTick(S, e)
-  \/ "est" \in Acts /\ \E S \in PS(SignerSets), e \in P(Epochs \cup NearEst) : NmTick(S, e)
-  \/ "nm" \in Acts /\ \E S \in PS(SignerSets), n \in P(Nodes) : NmAdd(S, n) \/ NmRm(S, n)
-  \/ "cn" \in Acts /\ \E S \in PS(SignerSets), c \in P(Cids) : CnPut(S, c) \/ CnDel(S, c)
-  \/ "ntf" \in Acts /\ \E S \in PS(SignerSets), e \in P(Epochs) : EstStart(S, e) \/ EstStop(S, e)
-  \/ "id" \in Acts /\ \E S \in PS(SignerSets), o \in P(Owners), ks \in P(KeySeqs) : IdAdd(S, o, ks) \/ IdRm(S, o, ks)
-  \/ "cfg" \in Acts /\ \E S \in PS(SignerSets), k \in P(CfgKeys), v \in P(Vals) : CfgNSet(S, k, v) \/ CfgFSet(S, k, v)
+\* Next is parameterised by the way argument sets are explored: P(X) = X for exhaustive checking,
+\* P(X) = {RandomElement(X)} for scenario generation; PS(X, h) chooses signer sets (h = the set that
+\* satisfies the witness checks of the call, used as a bias by the scenario generator).
+NextOf(P(_), PS(_, _)) ==
+  \/ "rep" \in Acts /\ \E e \in P(Epochs), p \in P(Peers), v \in P(Vals) : \E S \in PS(SignerSets, {"ALPHA"}) : RepPut(S, e, p, v)
+  \/ "aud" \in Acts /\ \E e \in P(Epochs), c \in P(Cids), n \in P(Nodes), v \in P(Vals) : \E S \in PS(SignerSets, {n}) : AudPut(S, e, c, n, v)
+  \/ "ir" \in Acts /\ \E ks \in P({SetToSeq(I) : I \in IRSets} \cup {<<>>}) : \E S \in PS(SignerSets, {"CMT"}) : IrSet(S, ks)
+  \/ "est" \in Acts /\ \E e \in P(Epochs \cup NearEst), c \in P(Cids), n \in P(Nodes), z \in P(Sizes) : \E S \in PS(SignerSets, {n}) : EstPut(S, e, c, n, z)
+  \/ "est" \in Acts /\ \E e \in P(Epochs \cup NearEst) : \E S \in PS(SignerSets, {"ALPHA"}) : EstTick(S, e)
+  \/ "est" \in Acts /\ \E e \in P(Epochs \cup NearEst) : \E S \in PS(SignerSets, {"ALPHA"}) : NmTick(S, e)
+  \/ "nm" \in Acts /\ \E n \in P(Nodes) : \E S \in PS(SignerSets, {"ALPHA"}) : NmAdd(S, n) \/ NmRm(S, n)
+  \/ "cn" \in Acts /\ \E c \in P(Cids) : \E S \in PS(SignerSets, {"ALPHA"}) : CnPut(S, c) \/ CnDel(S, c)
+  \/ "ntf" \in Acts /\ \E e \in P(Epochs) : \E S \in PS(SignerSets, {"ALPHA"}) : EstStart(S, e) \/ EstStop(S, e)
+  \/ "id" \in Acts /\ \E o \in P(Owners), ks \in P(KeySeqs) : \E S \in PS(SignerSets, {"ALPHA"}) : IdAdd(S, o, ks) \/ IdRm(S, o, ks)
+  \/ "cfg" \in Acts /\ \E k \in P(CfgKeys), v \in P(Vals) : \E S \in PS(SignerSets, {"ALPHA"}) : CfgNSet(S, k, v) \/ CfgFSet(S, k, v)
 
 All(X) == X
-Next == NextOf(All, All)
+All2(X, h) == X
+Next == NextOf(All, All2)
 
 -----------------------------------------------------------------------------
 (***************************************************************************)
